@@ -550,27 +550,45 @@ def compiled_controls(run, raw):
     run.cov["compiled_negative_controls"] = done
 
 
+class _Acc:
+    """stands in for Run inside the background thread (Run is not shared between threads): remembers the accounting
+    calls, which the main thread replays."""
+
+    def __init__(self):
+        self.trace_runs, self.cov = [], {}
+
+    def add_trace_run(self, name, res, n):
+        self.trace_runs.append((name, res, n))
+
+
+def compiled_work(jobs):
+    """everything of the compiled part that does not need the Run object: compile, decode, pair, build the traces, let TLC
+    decide, run the register-corruption controls.  Runs in a background thread next to the model checking."""
+    results = compile_jobs(jobs)
+    straces, ctraces, meta, stats = compiled_traces(jobs, results)
+    raw = stats.pop("_raw")
+    if not straces:
+        raise MachineryError("no compiled stream produced a stripe")
+    acc = _Acc()
+    sviol, _ = validate_batches(acc, "StripesTrace", [ev for _, ev in straces])
+    cviol = []
+    if ctraces:
+        cviol, _ = validate_batches(acc, "CascadeTrace", [ev for _, ev in ctraces])
+    compiled_controls(acc, raw)
+    return dict(straces=straces, ctraces=ctraces, meta=meta, stats=stats, sviol=sviol, cviol=cviol, acc=acc)
+
+
 def validate_compiled(run, tier, pending=None):
     """Stripe groups decoded from COMPILED command streams (see harness/c10_compiled.py): (a) the OFM boxes of every
     operator partition its output, (b) per stripe the rows/columns/channels the hardware reads (logical box start +
     register-derived extent) and the pad registers are Exact for the operator's geometry, (c) NoEarlyOverwrite /
     ReadBeforeProduced on real rolling buffers, with the slots taken from the tile registers.
-    pending = (jobs, future of compile_jobs) when main() started the compilations early."""
-    if pending is None:
-        jobs = compiled_jobs(tier, seed())
-        results = compile_jobs(jobs)
-    else:
-        jobs, fut = pending
-        results = fut.result()
-    straces, ctraces, meta, stats = compiled_traces(jobs, results)
-    raw = stats.pop("_raw")
-    if not straces:
-        raise MachineryError("no compiled stream produced a stripe")
-    compiled_controls(run, raw)
-    sviol, _ = validate_batches(run, "StripesTrace", [ev for _, ev in straces])
-    cviol = []
-    if ctraces:
-        cviol, _ = validate_batches(run, "CascadeTrace", [ev for _, ev in ctraces])
+    pending = future of compiled_work() when main() started it early."""
+    w = pending.result() if pending is not None else compiled_work(compiled_jobs(tier, seed()))
+    straces, ctraces, meta, stats, sviol, cviol = w["straces"], w["ctraces"], w["meta"], w["stats"], w["sviol"], w["cviol"]
+    for name, res, n in w["acc"].trace_runs:
+        run.add_trace_run(name + "(compiled)", res, n)
+    run.cov.update(w["acc"].cov)
     evmap = dict(straces)
     evmap.update(dict(ctraces))
     by_id = {t: m[0] for t, m in meta.items()}
@@ -708,7 +726,7 @@ def main(tier, only=None):
     # compilations of the corpus for validate_compiled run in forked children next to TLC and the lattice
     cjobs = compiled_jobs(tier, sd)
     cpool = ThreadPoolExecutor(1)
-    cfut = cpool.submit(compile_jobs, cjobs)
+    cfut = cpool.submit(compiled_work, cjobs)
     pool = ThreadPoolExecutor(len(jobs))
     futs = {k: pool.submit(_mc, m, c, w, exp, exp == "ok") for k, (m, c, w, exp) in jobs.items()}
     # ---- S2C: the lattice through the real code (runs while TLC works)
@@ -813,7 +831,7 @@ def main(tier, only=None):
                         "families": {f: sum(1 for c in cases if c.get("fam") == f) for f in sorted({c.get("fam") for c in cases})}}
     for cid_, ev in good[:3]:
         run.sample({"case": by_id[cid_], "first_stripe": ev[1] if len(ev) > 1 else None})
-    validate_compiled(run, tier, (cjobs, cfut))
+    validate_compiled(run, tier, cfut)
     cpool.shutdown()
     run.cov["rule"] = (
         "cases = (operator chain, stripe height): exhaustive/sampled lattice of class x extent x kernel 1..8 x dilation x stride 1..3 x "
